@@ -5,6 +5,7 @@ import (
 
 	"verifharness/core"
 	"verifharness/gen"
+	"verifharness/obs"
 	"verifharness/ref"
 )
 
@@ -207,6 +208,9 @@ func genEnv(r *core.Rand, today ref.Date) MEnv {
 	switch r.Intn(10) {
 	case 0:
 		env.Minute = r.PickInt(0, 1, 1438, 1439, 719, 720, 721)
+	}
+	if obs.IsDSTDate(today) && env.Minute%3 != 0 {
+		env.Minute = obs.NearMidnight(env.Minute) // where "24 hours ago" and "yesterday" part ways
 	}
 	if r.Chance(1, 6) {
 		env.CfgRounding = r.PickInt(5, 15, 30, 60)
